@@ -421,6 +421,11 @@ func genMix(prop string, seed uint64, run int, o mixOpts) *Scenario {
 			setup = append(setup, Op{K: OpMkdir, P: p})
 		}
 	}
+	if o.spellings && g.chance(0.35) {
+		// the current directory itself, spelled in ways that clean to "."
+		dirs = append(dirs, ".")
+		g.kind["."] = 'd'
+	}
 	buf := bufSizes[g.r.Intn(len(bufSizes))]
 	setup = append(setup, Op{K: OpNewWatcher, N: buf})
 	cm := "both"
@@ -429,6 +434,9 @@ func genMix(prop string, seed uint64, run int, o mixOpts) *Scenario {
 	}
 	sc.Cfg.Consumers = []ConsumerCfg{{Mode: cm, StopN: g.r.Intn(6)}}
 	addOp := func(p string) Op {
+		if p == "." {
+			return Op{K: OpAdd, W: 0, P: []string{".", "./", "d0/..", "./.", "d0/../"}[g.r.Intn(5)]}
+		}
 		sp, abs := g.spell(p, o.spellings)
 		op := Op{K: OpAdd, W: 0, P: sp, Abs: abs}
 		if g.chance(o.withOps) {
